@@ -116,6 +116,71 @@ def make_shards(prop, cfg, seed, tier, root):
     return shards
 
 
+# small-scope exhaustive exploration (extract/driver.ml --explore): for each (capacity, number of
+# keys) the model driver enumerates EVERY logical tree reachable by insert / remove over that key
+# universe (the closure is finite and is reached: closed=true) and prints one flat history per
+# transition; the implementation and the model are then compared on all of them.  This is a
+# validation of the model against the code (bounded, like every other history), not a proof.
+# entries: (capacity, number of keys, depth, start); depth 0 = the whole closure from the empty map ("-");
+# otherwise every operation sequence of at most `depth` insert/remove calls from the start state built by
+# inserting keys in the given order (asc:n, desc:n, zig:n, mid:n, rnd:S:n with S replaced by VERIF_SEED):
+# the start states have three levels, so the neighbourhoods cover branch-level borrow / merge / root collapse
+EXPLORE = {
+    "quick": [(4, 10, 0, "-"), (5, 10, 0, "-"), (6, 10, 0, "-"),
+              (4, 16, 4, "asc:15"), (4, 16, 3, "desc:15"), (4, 16, 3, "rnd:S:15"), (4, 16, 3, "zig:16"),
+              (5, 20, 3, "asc:18"), (5, 20, 3, "desc:18"), (5, 20, 3, "rnd:S:19"),
+              (6, 26, 3, "asc:24"), (6, 26, 3, "rnd:S:25"),
+              (7, 32, 3, "desc:30"), (7, 32, 2, "rnd:S:31"), (8, 38, 2, "asc:36")],
+    "thorough": [(4, 12, 0, "-"), (5, 11, 0, "-"), (6, 12, 0, "-"), (7, 12, 0, "-"), (8, 13, 0, "-"),
+                 (4, 16, 5, "asc:15"), (4, 16, 4, "desc:15"), (4, 16, 4, "rnd:S:15"), (4, 16, 4, "zig:16"), (4, 16, 4, "mid:16"),
+                 (5, 20, 4, "asc:18"), (5, 20, 4, "desc:18"), (5, 20, 4, "rnd:S:19"), (5, 20, 3, "zig:20"),
+                 (6, 26, 3, "asc:24"), (6, 26, 3, "desc:24"), (6, 26, 3, "rnd:S:25"), (6, 26, 3, "zig:26"),
+                 (7, 32, 3, "asc:30"), (7, 32, 3, "desc:30"), (7, 32, 3, "rnd:S:31"),
+                 (8, 38, 3, "asc:36"), (8, 38, 3, "rnd:S:37"), (9, 44, 2, "asc:42"), (16, 160, 1, "asc:150")],
+}
+EXPLORE_MAXSTATES = 400000
+# the same for the pure-Python map (extract/py_driver.ml --explore; minimum occupancy (cap-1)//2, so the
+# shapes differ from the Rust ones); the Python harness is slower, hence the smaller scopes
+EXPLORE_PY = {
+    "quick": [(4, 7, 0, "-"), (5, 8, 0, "-"),
+              (4, 14, 3, "asc:13"), (4, 14, 2, "desc:13"), (4, 14, 3, "rnd:S:13"),
+              (5, 18, 2, "asc:16"), (5, 18, 2, "rnd:S:17"), (6, 22, 2, "desc:20"), (7, 30, 1, "asc:28")],
+    "thorough": [(4, 8, 0, "-"), (5, 9, 0, "-"), (6, 9, 0, "-"), (7, 10, 0, "-"),
+                 (4, 14, 3, "asc:13"), (4, 14, 3, "desc:13"), (4, 14, 3, "rnd:S:13"), (4, 14, 3, "zig:14"),
+                 (5, 18, 3, "asc:16"), (5, 18, 3, "desc:16"), (5, 18, 3, "rnd:S:17"),
+                 (6, 22, 3, "asc:20"), (6, 22, 3, "desc:20"), (6, 22, 2, "rnd:S:21"),
+                 (7, 30, 2, "asc:28"), (7, 30, 2, "desc:28"), (8, 36, 2, "asc:34")],
+}
+
+
+def explore_shards(prop, cfg, tier, drv, seed=1, runner=None, nsplit=16):
+    """returns (shard texts, [dict(capacity, keys, states, transitions, closed)])"""
+    scopes = EXPLORE[tier]
+    if prop in ("C07", "C08", "C09") and runner is not None and getattr(runner, "driver", None):
+        drv, scopes = runner.driver, EXPLORE_PY[tier]
+    elif cfg.get("target") != "rust" or cfg.get("gen") or prop in EXT:
+        return [], []
+    texts = [[] for _ in range(nsplit)]
+    info = []
+    k = 0
+    for cap, u, depth, start in scopes:
+        start = start.replace(":S:", ":%d:" % (seed % 100000))
+        r = subprocess.run([drv, "--explore", str(cap), str(u), str(EXPLORE_MAXSTATES), str(depth), start],
+                           stdout=subprocess.PIPE, stderr=subprocess.PIPE, timeout=1800)
+        m = re.search(r"EXPLORE cap=(\d+) keys=(\d+) states=(\d+) transitions=(\d+) longest_path=(\d+) closed=(\w+)", r.stderr.decode())
+        if r.returncode != 0 or not m:
+            raise RuntimeError("model driver --explore %d %d failed: %s" % (cap, u, r.stderr.decode()[-300:]))
+        info.append(dict(capacity=int(m.group(1)), keys=int(m.group(2)), states=int(m.group(3)), transitions=int(m.group(4)),
+                         longest_path=int(m.group(5)), closed=(m.group(6) == "true"), depth=depth, start=start))
+        for blk in r.stdout.decode().split("\nH ")[0:]:
+            if not blk:
+                continue
+            blk = blk if blk.startswith("H ") else "H " + blk
+            texts[k % nsplit].append(blk if blk.endswith("\n") else blk + "\n")
+            k += 1
+    return ["".join(t) for t in texts if t], info
+
+
 def gen_histories(prop, cfg, seed, s, nhist, tier):
     if prop in EXT:
         return EXT[prop].gen_histories(prop, seed, s, nhist, tier)
@@ -307,6 +372,11 @@ def verdict(prop, cfg, tier, seed, pr, results, runner, drv, t0, vp):
                   if cfg["target"] != "arena" else
                   "arena histories generated by tools/gen.py (seeded); compared at levels %s; non-trivial = distinct histories with a released slot that was later reused") % levels,
             op_histogram=histo, divergent_histories=len(divs), oracle_violations=len(viols),
+            small_scope_exhaustive=pr.get("small_scope", []),
+            small_scope_rule=("for each (capacity, keys) entry the extracted model enumerated every logical tree reachable from new(capacity) by "
+                              "insert/remove over that key universe (closed=true: the closure was reached) and one history per (state, operation) "
+                              "pair was run through the implementation and the model and compared like all other histories; these histories are "
+                              "included in evaluations" if pr.get("small_scope") else "not applicable to this property's target"),
             samples=samples,
         ),
         assumptions=cfg.get("assumptions", ASSUMPTIONS_RUST),
